@@ -1,6 +1,189 @@
-(* C17 — time expressions, durations and sizes.  Headline theorems only. *)
-From Pyro Require Import Model.Base Model.TimeParse.
+(* C17 — time expressions, durations and sizes typed by users mean what they say.  Headline theorems only.
+   Models: Model/TimeParse.v (byte level; int64/uint64 wraps explicit; binary64 as exactly rounded rationals). *)
+From Pyro Require Import Model.Base Model.TimeParse Proofs.TimeParseProofs.
+Local Open Scope Z_scope.
 
-Example ex_d6_nonvacuous :
-  attime_parse 0%Z [110;111;119;45;49;104;51;48;109;105;110] = Some (-5400000000000)%Z.
+(* ---------------------------------------------------------------------------------------------------------------- *)
+(* attime *)
+
+(* parsing never fails or panics: the literal index/slice model of Parse/parseTimeOffset (None = a slice expression out of
+   range, or the loop not terminating) returns a time for every byte string *)
+Theorem attime_total : forall now s, exists t, attime_parse now s = Some t.
+Proof. exact attime_total_lemma. Qed.
+Print Assumptions attime_total.
+
+(* an all-digit argument (after removal of white space, '_', ',') is a Unix timestamp in seconds — an int holds at most
+   MaxInt64, larger values are clamped by strconv — unless it is a plausible 8-digit YYYYMMDD date (year > 1900, valid
+   month and day of that month), which is UTC midnight of that date *)
+Theorem attime_digits : forall now s ds,
+  attime_clean s = ds -> ds <> [] -> forallb is_digit ds = true ->
+  attime_parse now s =
+    Some (1000000000 * (if plausible_date ds then date_seconds ds else Z.min (digits_val ds) max_int64)).
+Proof. exact attime_digits_lemma. Qed.
+Print Assumptions attime_digits.
+
+Example attime_digits_nonvacuous :
+  attime_clean (bs " 2021_02,28 ") = bs "20210228" /\ plausible_date (bs "20210228") = true /\
+  date_seconds (bs "20210228") = 1614470400 /\ plausible_date (bs "20210230") = false /\ plausible_date (bs "19000101") = false.
+Proof. vm_compute. repeat split; reflexivity. Qed.
+
+(* a relative expression  ref (+|-) n1 u1 n2 u2 ... nk uk  (any k; separators and surrounding white space anywhere) is
+   now +- the sum of all its terms, in int64 nanoseconds (the wrap is explicit) *)
+Theorem attime_relative : forall now s ref sg ts,
+  attime_clean s = ref ++ sg :: render_terms ts ->
+  (sg = 43%N \/ sg = 45%N) ->
+  no_byte 43 ref -> no_byte 45 ref ->
+  Forall term_ok ts -> Forall (fun t => no_byte 43 (snd t)) ts ->
+  attime_parse now s = Some (now + wrap64 (1000000000 * (sign_val sg * terms_seconds ts))).
+Proof. exact attime_relative_lemma. Qed.
+Print Assumptions attime_relative.
+
+(* ... and exactly now +- sum when the sum fits into an int64 number of nanoseconds (about 292 years) *)
+Theorem attime_relative_exact : forall now s ref sg ts,
+  attime_clean s = ref ++ sg :: render_terms ts ->
+  (sg = 43%N \/ sg = 45%N) ->
+  no_byte 43 ref -> no_byte 45 ref ->
+  Forall term_ok ts -> Forall (fun t => no_byte 43 (snd t)) ts ->
+  - two63 <= 1000000000 * terms_seconds ts < two63 ->
+  attime_parse now s = Some (now + sign_val sg * (1000000000 * terms_seconds ts)).
+Proof. exact attime_relative_exact_lemma. Qed.
+Print Assumptions attime_relative_exact.
+
+(* terms_seconds multiplies each number (go_atoi = its decimal value below 2^63) by get_unit_multiplier of the spelling;
+   the documented spellings have the documented lengths, and so has every spelling with one of the prefixes *)
+Theorem attime_units_documented : Forall (fun p => get_unit_multiplier (fst p) = snd p) doc_unit_table.
+Proof. exact doc_unit_table_sound. Qed.
+Print Assumptions attime_units_documented.
+
+Theorem attime_number_value : forall ds, ds <> [] -> forallb is_digit ds = true -> digits_val ds < two63 ->
+  go_atoi ds = digits_val ds.
+Proof. exact go_atoi_small. Qed.
+Print Assumptions attime_number_value.
+
+Theorem attime_unit_prefixes : forall r,
+  get_unit_multiplier (115 :: r)%N = 1 /\ get_unit_multiplier (109 :: 105 :: 110 :: r)%N = 60 /\
+  get_unit_multiplier (104 :: r)%N = 3600 /\ get_unit_multiplier (100 :: r)%N = 86400 /\
+  get_unit_multiplier (119 :: r)%N = 604800 /\ get_unit_multiplier (109 :: 111 :: 110 :: r)%N = 2592000 /\
+  get_unit_multiplier (121 :: r)%N = 31536000.
+Proof. intros r. repeat split; reflexivity. Qed.
+Print Assumptions attime_unit_prefixes.
+
+Example attime_relative_nonvacuous :
+  let ts := [(bs "1", bs "h"); (bs "30", bs "min")] in
+  attime_clean (bs " now - 1h_30,min ") = (bs "now" ++ 45%N :: render_terms ts)%list /\
+  no_byte 43 (bs "now") /\ no_byte 45 (bs "now") /\ Forall term_ok ts /\ Forall (fun t => no_byte 43 (snd t)) ts /\
+  1000000000 * terms_seconds ts = 5400000000000 /\
+  attime_parse 7 (bs " now - 1h_30,min ") = Some (7 - 5400000000000).
+Proof.
+  cbv zeta. repeat split; try (vm_compute; reflexivity); try (repeat constructor; vm_compute; congruence);
+    try (repeat constructor).
+Qed.
+
+(* ---------------------------------------------------------------------------------------------------------------- *)
+(* durations *)
+
+(* Full statement (false of the code, see duration_equiv_refuted):
+     forall s, no_dMy s -> pyro_parse_duration s = std_parse_duration s.
+   The copy predates the standard library's uint64 rewrite: Go 1.23 admits the magnitude 1<<63 in every accumulator (so that
+   MinInt64 parses) and, as a side effect, wraps 2^63 + 2^63 to 0; the copy rejects both. *)
+Theorem duration_equiv_refuted :
+  exists s, no_dMy s /\ std_parse_duration s = POk (- two63) /\ pyro_parse_duration s = PErr.
+Proof. exists (bs "-9223372036854775808ns"). vm_compute. repeat split; reflexivity. Qed.
+Print Assumptions duration_equiv_refuted.
+
+Theorem duration_equiv_wrap_refuted :
+  exists s, no_dMy s /\ std_parse_duration s = POk 0 /\ pyro_parse_duration s = PErr.
+Proof. exists (bs "9223372036854775808ns9223372036854775808ns"). vm_compute. repeat split; reflexivity. Qed.
+Print Assumptions duration_equiv_wrap_refuted.
+
+(* Partial: for every string without the bytes d, M, y — added hypotheses: (1) no '.' in the string (the fraction path
+   evaluates the same binary64 expression in both parsers unless the first 19 fraction digits are 9223372036854775808; it
+   is compared on the implementations in the correspondence run); (2) the admission of the magnitude 1<<63 plays no role
+   in the standard parser's run (lowering the admitted magnitude to 1<<63 - 1 leaves its answer unchanged) —
+   the copy accepts exactly what the standard parser accepts, with the same value *)
+Theorem duration_equiv_partial : forall s, no_dMy s -> no_dot s ->
+  std_parse_duration_b max_int64 s = std_parse_duration s ->
+  pyro_parse_duration s = std_parse_duration s.
+Proof. exact duration_equiv_lemma. Qed.
+Print Assumptions duration_equiv_partial.
+
+Example duration_equiv_partial_nonvacuous :
+  let s := bs "-2h45m30s500ms" in
+  no_dMy s /\ no_dot s /\ std_parse_duration_b max_int64 s = std_parse_duration s /\ std_parse_duration s = POk (-9930500000000).
+Proof. vm_compute. repeat split; reflexivity. Qed.
+
+(* the extra units are 24 h, 720 h, 8760 h, and integer terms over the whole unit table add up (any number of terms) *)
+Theorem duration_extra_units :
+  pyro_unit (bs "d") = Some (24 * ns_h) /\ pyro_unit (bs "M") = Some (720 * ns_h) /\ pyro_unit (bs "y") = Some (8760 * ns_h) /\
+  (forall u x, std_unit u = Some x -> pyro_unit u = Some x).
+Proof.
+  repeat split; try reflexivity. intros u x H. unfold pyro_unit. rewrite H. reflexivity.
+Qed.
+Print Assumptions duration_extra_units.
+
+Theorem duration_terms_add : forall ts, ts <> [] -> Forall dterm_ok ts -> dterms_total ts <= max_int64 ->
+  pyro_parse_duration (render_terms ts) = POk (dterms_total ts).
+Proof. exact duration_terms_lemma. Qed.
+Print Assumptions duration_terms_add.
+
+Example duration_terms_add_nonvacuous :
+  let ts := [(bs "30", bs "d"); (bs "12", bs "h")] in
+  render_terms ts = bs "30d12h" /\ dterms_total ts = 732 * ns_h /\ dterms_total ts <= max_int64 /\
+  pyro_parse_duration (bs "30d12h") = POk (732 * ns_h).
+Proof. vm_compute. repeat split; try reflexivity; discriminate. Qed.
+
+Example duration_terms_ok_nonvacuous : Forall dterm_ok [(bs "30", bs "d"); (bs "12", bs "h")].
+Proof.
+  repeat constructor; try (vm_compute; congruence); try (vm_compute; reflexivity); eexists; vm_compute; reflexivity.
+Qed.
+
+(* ---------------------------------------------------------------------------------------------------------------- *)
+(* sizes *)
+
+(* integer number, optional white space, unit (any spelling that lower-cases into the table: binary KB..PB, decimal
+   KiB..PiB, b, nothing): number times unit, and an error exactly when the product exceeds MaxInt64 (overflow explicit) *)
+Theorem bytesize_spec : forall ds ws u m,
+  ds <> [] -> forallb is_digit ds = true -> forallb re_space ws = true ->
+  forallb (fun c => negb (is_digit c)) u = true ->
+  starts_with (fun c => negb (num_char c) && negb (re_space c)) u ->
+  trim_space (ds ++ ws ++ u) = ds ++ ws ++ u ->
+  bs_multiplier (lower_for_lookup (length u) u) = Some m ->
+  bytesize_parse (ds ++ ws ++ u) =
+    if digits_val ds * m <=? max_int64 then Some (digits_val ds * m) else None.
+Proof. exact bytesize_int_lemma. Qed.
+Print Assumptions bytesize_spec.
+
+Theorem bytesize_units :
+  map (fun u => bs_multiplier (lower_for_lookup (length (bs u)) (bs u)))
+      ["Kb"; "MB"; "gB"; "tb"; "PB"; "KiB"; "mib"; "GIB"; "TiB"; "pIb"; "B"; ""]%string =
+  [Some (1024); Some (1024^2); Some (1024^3); Some (1024^4); Some (1024^5);
+   Some (1000); Some (1000^2); Some (1000^3); Some (1000^4); Some (1000^5); Some 1; Some 1].
 Proof. vm_compute. reflexivity. Qed.
+Print Assumptions bytesize_units.
+
+Example bytesize_spec_nonvacuous :
+  let ds := bs "100" in let ws := bs " " in let u := bs "MiB" in
+  trim_space (ds ++ ws ++ u) = (ds ++ ws ++ u)%list /\ bs_multiplier (lower_for_lookup (length u) u) = Some (1000^2) /\
+  bytesize_parse (bs "100 MiB") = Some 100000000 /\
+  bytesize_parse (bs "18446744073709551615") = None /\ bytesize_parse (bs "-5KB") = None /\
+  bytesize_parse (bs "1.5 KB") = Some 1536 /\ bytesize_parse (bs "8192PB") = None.
+Proof. vm_compute. repeat split; reflexivity. Qed.
+
+(* Full statement of the print/parse round trip (false at the top of the range, see bytesize_print_parse_refuted):
+     forall b, 1024 <= b <= max_int64 -> exists p, bytesize_parse (bytesize_print b) = Some p /\
+        |p - b| * 200 <= U + 200 + 200 * (b / 2^52)      (U = the printed unit; half a unit of the last printed digit,
+                                                          + 1 for the truncation, + two binary64 roundings)
+   It is evaluated by Corr.CorrC17.check_print on what the implementation printed and parsed back, for every generated b.
+   The %.2f formatting and strconv.ParseFloat are modelled as exact rational roundings; proving the bound for all b needs
+   an error analysis of `rne` that is not done here. *)
+Theorem bytesize_print_parse_refuted :
+  exists b, 1024 <= b <= max_int64 /\ bytesize_print b = bs "8192.00 PB" /\ bytesize_parse (bytesize_print b) = None.
+Proof. exists max_int64. vm_compute. repeat split; try reflexivity; discriminate. Qed.
+Print Assumptions bytesize_print_parse_refuted.
+
+(* the boundary of that finding: the largest size that still prints below 8192.00 PB parses back within the bound *)
+Example bytesize_print_parse_boundary :
+  bytesize_print (max_int64 - 5629499534214) = bs "8191.99 PB" /\
+  bytesize_print (max_int64 - 5629499534213) = bs "8192.00 PB" /\
+  bytesize_parse (bs "8191.99 PB") = Some 9223360777855707873.
+Proof. vm_compute. repeat split; reflexivity. Qed.
